@@ -39,7 +39,8 @@ def decStep (s : DS) (ch : Nat) : Option DS :=
     let pad := if D ch = -2 then s.pad + 1 else s.pad
     let x := ((s.x <<< 6) + v) % 2 ^ 64
     if cnt &&& 3 = 0 then
-      some { x, cnt, pad, out := s.out ++ [(x >>> 16) &&& 0xff, (x >>> 8) &&& 0xff, x &&& 0xff] }
+      -- `ptr -= pad < 3 ? pad : 3; pad = 0;` : the padded bytes of this group are dropped
+      some { x, cnt, pad := 0, out := s.out ++ [(x >>> 16) &&& 0xff, (x >>> 8) &&& 0xff, x &&& 0xff].take (3 - min pad 3) }
     else some { x, cnt, pad, out := s.out }
 
 def decLoop : List Nat → DS → Option DS
@@ -48,11 +49,16 @@ def decLoop : List Nat → DS → Option DS
     | none => none
     | some s' => decLoop r s'
 
-/-- one region: `final = ptr - dest; if (pad > 0) final -= pad;` (a size_t: wraps when pad > final) -/
-def decode (cs : List Nat) : Option (List Nat ⊕ Nat) :=
-  (decLoop cs {}).map fun s =>
-    if s.pad ≤ s.out.length then .inl (s.out.take (s.out.length - s.pad))
-    else .inr (2 ^ 64 + s.out.length - s.pad)       -- a data object claiming this absurd size (finding F4)
+/-- the bytes of the returned object (`final = ptr - dest`), for the text `cs` -/
+def decode (cs : List Nat) : Option (List Nat) := (decLoop cs {}).map (·.out)
+
+/-- over a fragmented input: `x`, `count`, `pad` are carried from region to region, every region appends
+    the bytes it produced (`dispatch_data_create_concat`) -/
+def decRegions : List (List Nat) → DS → Option DS
+  | [], s => some s
+  | r :: rs, s => match decLoop r s with
+    | none => none
+    | some s' => decRegions rs s'
 
 /-! ### table facts (finite: by evaluation) -/
 
@@ -110,8 +116,9 @@ theorem enc_three (a b c : Nat) (r : List Nat) (cnt last : Nat) (h : cnt % 3 = 0
 /-- the body of the loop for an accepted character of value `v` -/
 def push (s : DS) (v : Nat) (isPad : Bool) : DS :=
   let x := (s.x * 64 + v) % 2 ^ 64
-  { x, cnt := s.cnt + 1, pad := if isPad then s.pad + 1 else s.pad,
-    out := if (s.cnt + 1) % 4 = 0 then s.out ++ [(x / 65536) % 256, (x / 256) % 256, x % 256] else s.out }
+  let pad := if isPad then s.pad + 1 else s.pad
+  { x, cnt := s.cnt + 1, pad := if (s.cnt + 1) % 4 = 0 then 0 else pad,
+    out := if (s.cnt + 1) % 4 = 0 then s.out ++ [(x / 65536) % 256, (x / 256) % 256, x % 256].take (3 - min pad 3) else s.out }
 
 theorem and3 (n : Nat) : n &&& 3 = n % 4 := Nat.and_two_pow_sub_one_eq_mod n 2
 theorem and255 (n : Nat) : n &&& 0xff = n % 256 := Nat.and_two_pow_sub_one_eq_mod n 8
@@ -133,45 +140,46 @@ theorem decStep_pad (s : DS) : decStep s 61 = some (push s 0 true) := by
   simp only [push, and3, and255, Nat.shiftLeft_eq, Nat.shiftRight_eq_div_pow, hd]
   split <;> simp_all
 
-/-- four sextets pushed from a group boundary append the three bytes they spell -/
-theorem push4 (s : DS) (s0 s1 s2 s3 : Nat) (p2 p3 : Bool) (hc : s.cnt % 4 = 0)
+/-- four sextets pushed from a group boundary append the bytes they spell, minus one per pad character -/
+theorem push4 (s : DS) (s0 s1 s2 s3 : Nat) (p2 p3 : Bool) (hc : s.cnt % 4 = 0) (hp : s.pad = 0)
     (h0 : s0 < 64) (h1 : s1 < 64) (h2 : s2 < 64) (h3 : s3 < 64) :
     let v := s0 * 262144 + s1 * 4096 + s2 * 64 + s3
     let s' := push (push (push (push s s0 false) s1 false) s2 p2) s3 p3
-    s'.out = s.out ++ [v / 65536, (v / 256) % 256, v % 256] ∧ s'.cnt = s.cnt + 4 ∧
-      s'.pad = s.pad + (if p2 then 1 else 0) + (if p3 then 1 else 0) := by
+    s'.out = s.out ++ [v / 65536, (v / 256) % 256, v % 256].take (3 - ((if p2 then 1 else 0) + (if p3 then 1 else 0))) ∧
+      s'.cnt = s.cnt + 4 ∧ s'.pad = 0 := by
   have c1 : ¬ (s.cnt + 1) % 4 = 0 := by omega
   have c2 : ¬ (s.cnt + 1 + 1) % 4 = 0 := by omega
   have c3 : ¬ (s.cnt + 1 + 1 + 1) % 4 = 0 := by omega
   have c4 : (s.cnt + 1 + 1 + 1 + 1) % 4 = 0 := by omega
-  simp only [push, c1, c2, c3, c4, if_false, if_true]
-  refine ⟨?_, by simp <;> omega, ?_⟩
-  · congr 1
-    generalize s.x = x
-    have e : ((((x * 64 + s0) % 2 ^ 64 * 64 + s1) % 2 ^ 64 * 64 + s2) % 2 ^ 64 * 64 + s3) % 2 ^ 64 % 16777216
-        = s0 * 262144 + s1 * 4096 + s2 * 64 + s3 := by omega
-    generalize ((((x * 64 + s0) % 2 ^ 64 * 64 + s1) % 2 ^ 64 * 64 + s2) % 2 ^ 64 * 64 + s3) % 2 ^ 64 = y at e ⊢
-    simp only [List.cons.injEq, and_true]
-    refine ⟨by omega, by omega, by omega⟩
-  · cases p2 <;> cases p3 <;> simp
+  simp only [push, c1, c2, c3, c4, if_false, if_true, hp]
+  refine ⟨?_, by simp <;> omega, trivial⟩
+  generalize s.x = x
+  have e : ((((x * 64 + s0) % 2 ^ 64 * 64 + s1) % 2 ^ 64 * 64 + s2) % 2 ^ 64 * 64 + s3) % 2 ^ 64 % 16777216
+      = s0 * 262144 + s1 * 4096 + s2 * 64 + s3 := by omega
+  generalize ((((x * 64 + s0) % 2 ^ 64 * 64 + s1) % 2 ^ 64 * 64 + s2) % 2 ^ 64 * 64 + s3) % 2 ^ 64 = y at e ⊢
+  have e1 : y / 65536 % 256 = (s0 * 262144 + s1 * 4096 + s2 * 64 + s3) / 65536 := by omega
+  have e2 : y / 256 % 256 = (s0 * 262144 + s1 * 4096 + s2 * 64 + s3) / 256 % 256 := by omega
+  have e3 : y % 256 = (s0 * 262144 + s1 * 4096 + s2 * 64 + s3) % 256 := by omega
+  rw [e1, e2, e3]
+  cases p2 <;> cases p3 <;> simp
 
 theorem decLoop_cons (c : Nat) (r : List Nat) (s s' : DS) (h : decStep s c = some s') :
     decLoop (c :: r) s = decLoop r s' := by simp [decLoop, h]
 
-/-- decoding the encoder's output from a group boundary appends the input bytes, then `pad` junk bytes -/
+/-- decoding the encoder's output from a group boundary appends exactly the input bytes and ends on a
+    group boundary with no padding pending -/
 theorem dec_enc : ∀ (bs : List Nat), (∀ b ∈ bs, b < 256) → ∀ (cnt last : Nat) (s : DS),
     cnt % 3 = 0 → s.cnt % 4 = 0 → s.pad = 0 →
-    ∃ s' z, decLoop (encLoop bs cnt last) s = some s' ∧ s'.out = s.out ++ bs ++ z ∧ z.length = s'.pad
-  | [], _, cnt, last, s, hc, _, hp => ⟨s, [], by simp [enc_nil cnt last hc, decLoop], by simp, by simp [hp]⟩
+    ∃ s', decLoop (encLoop bs cnt last) s = some s' ∧ s'.out = s.out ++ bs ∧ s'.pad = 0 ∧ s'.cnt % 4 = 0
+  | [], _, cnt, last, s, hc, hs, hp => ⟨s, by simp [enc_nil cnt last hc, decLoop], by simp, hp, hs⟩
   | [a], hb, cnt, last, s, hc, hs, hp => by
     have ha : a < 256 := hb a (by simp)
     rw [enc_one a cnt last hc ha]
     rw [decLoop_cons _ _ _ _ (decStep_T s _ (by omega)), decLoop_cons _ _ _ _ (decStep_T _ _ (by omega)),
       decLoop_cons _ _ _ _ (decStep_pad _), decLoop_cons _ _ _ _ (decStep_pad _)]
-    have ⟨o, c, p⟩ := push4 s (a / 4) ((a % 4) * 16) 0 0 true true hs (by omega) (by omega) (by omega) (by omega)
+    have ⟨o, c, p⟩ := push4 s (a / 4) ((a % 4) * 16) 0 0 true true hs hp (by omega) (by omega) (by omega) (by omega)
     try simp only at o c p
-    refine ⟨_, [(a / 4 * 262144 + a % 4 * 16 * 4096 + 0 * 64 + 0) / 256 % 256, (a / 4 * 262144 + a % 4 * 16 * 4096 + 0 * 64 + 0) % 256],
-      rfl, ?_, by simp [p, hp]⟩
+    refine ⟨_, rfl, ?_, p, by rw [c]; omega⟩
     rw [o]; simp; omega
   | [a, b], hb, cnt, last, s, hc, hs, hp => by
     have ha : a < 256 := hb a (by simp)
@@ -179,10 +187,10 @@ theorem dec_enc : ∀ (bs : List Nat), (∀ b ∈ bs, b < 256) → ∀ (cnt last
     rw [enc_two a b cnt last hc ha hb']
     rw [decLoop_cons _ _ _ _ (decStep_T s _ (by omega)), decLoop_cons _ _ _ _ (decStep_T _ _ (by omega)),
       decLoop_cons _ _ _ _ (decStep_T _ _ (by omega)), decLoop_cons _ _ _ _ (decStep_pad _)]
-    have ⟨o, c, p⟩ := push4 s (a / 4) ((a % 4) * 16 + b / 16) ((b % 16) * 4) 0 false true hs
+    have ⟨o, c, p⟩ := push4 s (a / 4) ((a % 4) * 16 + b / 16) ((b % 16) * 4) 0 false true hs hp
       (by omega) (by omega) (by omega) (by omega)
     try simp only at o c p
-    refine ⟨_, [(a / 4 * 262144 + (a % 4 * 16 + b / 16) * 4096 + b % 16 * 4 * 64 + 0) % 256], rfl, ?_, by simp [p, hp]⟩
+    refine ⟨_, rfl, ?_, p, by rw [c]; omega⟩
     rw [o]; simp; omega
   | a :: b :: c :: r, hb, cnt, last, s, hc, hs, hp => by
     have ha : a < 256 := hb a (by simp)
@@ -192,12 +200,12 @@ theorem dec_enc : ∀ (bs : List Nat), (∀ b ∈ bs, b < 256) → ∀ (cnt last
     try simp only [List.cons_append, List.nil_append]
     rw [decLoop_cons _ _ _ _ (decStep_T s _ (by omega)), decLoop_cons _ _ _ _ (decStep_T _ _ (by omega)),
       decLoop_cons _ _ _ _ (decStep_T _ _ (by omega)), decLoop_cons _ _ _ _ (decStep_T _ _ (by omega))]
-    have ⟨o, cn, p⟩ := push4 s (a / 4) ((a % 4) * 16 + b / 16) ((b % 16) * 4 + c / 64) (c % 64) false false hs
+    have ⟨o, cn, p⟩ := push4 s (a / 4) ((a % 4) * 16 + b / 16) ((b % 16) * 4 + c / 64) (c % 64) false false hs hp
       (by omega) (by omega) (by omega) (by omega)
     try simp only at o cn p
-    obtain ⟨s', z, e, eo, ez⟩ := dec_enc r (fun x hx => hb x (by simp [hx])) (cnt + 3) c _ (by omega)
-      (by rw [cn]; omega) (by rw [p, hp]; simp)
-    refine ⟨s', z, e, ?_, ez⟩
+    obtain ⟨s', e, eo, ep, ec⟩ := dec_enc r (fun x hx => hb x (by simp [hx])) (cnt + 3) c _ (by omega)
+      (by rw [cn]; omega) p
+    refine ⟨s', e, ?_, ep, ec⟩
     rw [eo, o]
     have e1 : (a / 4 * 262144 + (a % 4 * 16 + b / 16) * 4096 + (b % 16 * 4 + c / 64) * 64 + c % 64) / 65536 = a := by omega
     have e2 : (a / 4 * 262144 + (a % 4 * 16 + b / 16) * 4096 + (b % 16 * 4 + c / 64) * 64 + c % 64) / 256 % 256 = b := by omega
@@ -205,20 +213,48 @@ theorem dec_enc : ∀ (bs : List Nat), (∀ b ∈ bs, b < 256) → ∀ (cnt last
     rw [e1, e2, e3]; simp
 
 /-- **Base64 round trip**: for every byte string, decoding the encoder's output gives the input back. -/
-theorem b64_roundtrip (bs : List Nat) (h : ∀ b ∈ bs, b < 256) : decode (encode bs) = some (.inl bs) := by
-  obtain ⟨s', z, e, eo, ez⟩ := dec_enc bs h 0 0 {} rfl rfl rfl
+theorem b64_roundtrip (bs : List Nat) (h : ∀ b ∈ bs, b < 256) : decode (encode bs) = some bs := by
+  obtain ⟨s', e, eo, _, _⟩ := dec_enc bs h 0 0 {} rfl rfl rfl
   simp only [decode, encode, e, Option.map_some]
-  have hl : s'.pad ≤ s'.out.length := by rw [eo]; simp; omega
-  simp only [hl, if_true]
-  rw [eo]; simp [ez]
+  rw [eo]; simp
+
+/-! ### fragmentation: the carried state makes region boundaries invisible -/
+
+theorem decLoop_append (a b : List Nat) (s : DS) :
+    decLoop (a ++ b) s = (decLoop a s).bind (decLoop b) := by
+  induction a generalizing s with
+  | nil => simp [decLoop]
+  | cons c r ih =>
+    simp only [List.cons_append, decLoop]
+    cases decStep s c with
+    | none => simp
+    | some s' => simp [ih]
+
+/-- **the decoder does not depend on how the text is cut into regions** (including cuts inside a
+    4-character group or inside the padding) -/
+theorem decRegions_flatten (rs : List (List Nat)) (s : DS) : decRegions rs s = decLoop rs.flatten s := by
+  induction rs generalizing s with
+  | nil => simp [decRegions, decLoop]
+  | cons r rs ih =>
+    simp only [decRegions, List.flatten_cons, decLoop_append]
+    cases decLoop r s with
+    | none => simp
+    | some s' => simp [ih]
+
+/-- every write of the decoder is inside the `howmany(size, 4) * 3` bytes it allocated for the region, and
+    `ptr` never moves below `dest`: the bytes a region produces (before the padding adjustment: 3 per completed
+    group) fit, given that at most 3 characters are pending from earlier regions -/
+theorem dec_region_bound (size carry : Nat) (hc : carry ≤ 3) :
+    3 * ((carry + size) / 4) ≤ (size + 3) / 4 * 3 := by omega
 
 end B64
 
 section audit
 open B64
 #print axioms b64_roundtrip
-/-- F4 as a theorem about the same loop: four pad characters make the decoder return an object
-    whose size wrapped below zero. -/
-example : decode [61, 61, 61, 61] = some (.inr (2 ^ 64 - 1)) := by decide
+/-- F4 (fixed): four pad characters decode to nothing; padding belongs to its group, also across regions -/
+example : decode [61, 61, 61, 61] = some [] := by decide
+example : (decRegions [[90, 109, 56, 61], [10]] {}).map (·.out) = some [102, 111] := by decide
+example : (decRegions [[90, 109, 56, 61], [90, 109, 56, 61]] {}).map (·.out) = some [102, 111, 102, 111] := by decide
 example : encode [102, 111] = [90, 109, 56, 61] := by decide   -- "fo" ↦ "Zm8="
 end audit
